@@ -19,6 +19,7 @@ import LitexModel.Export.MemImage
   call imagebytes <big> <q> <n> <w0> <w1> ...                -> the n bytes a CPU reads from the image
   call memsel <paging> <page> <depth> <adr>                  -> word | -
   call fieldextract <offset> <size> <word>
+  call accepts <alignment> <aw> <paging> <busword> ; <bank> ; ...   -> ok | rejected   (SoCError at build time)
   call nlocs <alignment> <aw> <paging>
 -/
 open Litex Litex.Driver Litex.Export
@@ -43,9 +44,8 @@ def call (args : List String) : Option String :=
   | "export" :: cb :: pg :: al :: bw :: cba :: rest => do
     let cb ← cb.toNat?; let pg ← pg.toNat?; let al ← al.toNat?; let bw ← bw.toNat?; let cba ← cba.toNat?
     let banks ← pBanks rest
-    let first := match banks with | [] => cb | b :: _ => regionOrigin cb pg b
     let j := (exportAddrs cb pg al bw banks).map showEntries
-    let h := (headerAddrs cba first cb pg al bw banks).map showEntries
+    let h := (headerAddrs cba cb pg al bw banks).map showEntries
     let s := banks.map fun b => showNats (svdAddrs cb pg bw b)
     some s!"J {showBanks j} # H {showBanks h} # S {showBanks s}"
   | "decode" :: bw :: aw :: pg :: off :: rest => do
@@ -78,6 +78,8 @@ def call (args : List String) : Option String :=
     | none => some "-"
   | ["fieldextract", off, size, word] => do
     some (toString (fieldExtract (← off.toNat?) (← size.toNat?) (← word.toNat?)))
+  | "accepts" :: al :: aw :: pg :: bw :: rest => do
+    some (if accepts (← al.toNat?) (← aw.toNat?) (← pg.toNat?) (← bw.toNat?) (← pBanks rest) then "ok" else "rejected")
   | ["nlocs", al, aw, pg] => do some (toString (nLocs (← al.toNat?) (← aw.toNat?) (← pg.toNat?)))
   | _ => none
 
